@@ -61,6 +61,8 @@ struct JSON {
         static ValueT Parse(Stream_T &stream, const Char_T *content, SizeT length) {
             if (length != 0) {
                 SizeT offset = 0;
+                // The stream is scratch space for unescaped strings: what an earlier, rejected text left in it is not part of this one.
+                stream.Clear();
                 StringUtils::TrimLeft(content, offset, length);
                 ValueT value = parseValue(stream, content, offset, length);
                 StringUtils::TrimLeft(content, offset, length);
